@@ -78,7 +78,7 @@ class Restrict(Harness):
             pool = [(("a", "float"),), (("c", "float"), ("a", "float")), (("a", "str"),)]
         if self.reader == "ListOfDicts.from_json":
             # float() of a symbolic int would have to be concretised (CPython demands a real float): the callable only
-            pool = [(("c", "shift"),), (("a", "shift"),), (("c", "shift"), ("a", "shift")), (("z", "shift"),)]
+            pool = [(("c", "shift"),), (("a", "shift"),), (("c", "shift"), ("a", "shift")), (("z", "shift"),), (("a", "str"),)]
         types = [list(x) for x in choice("types", pool)] if self.typed else []
         if self.reader == "DataFrame.from_json":
             types = [t for t in types if t[0] in cols]
@@ -92,7 +92,10 @@ class Restrict(Harness):
         for i in range(n):
             rec = {}
             for k in choice(f"keys{i}", [("a", "b", "c"), ("c", "a"), ("b",)] if not self.typed else [("a", "b", "c"), ("c", "a")]):
-                if dict(map(tuple, types)).get(k) == "str":
+                if dict(map(tuple, types)).get(k) == "str" and self.reader == "ListOfDicts.from_json":
+                    # JSON numbers and booleans that compare equal but are different values, cast with a type that tells them apart
+                    rec[k] = [1, 1.0, True, 0, -0.0, False][choice(f"v{i}{k}", range(6))]
+                elif dict(map(tuple, types)).get(k) == "str":
                     rec[k] = choice(f"v{i}{k}", [None, "s", "tt"])        # a string column with nulls, requested as str
                 else:
                     rec[k] = json_value(ctx, f"v{i}{k}") if (k not in typed or self.reader.startswith("DataFrame")) else SymPyInt(symx.sym_i64(f"v{i}{k}"))
@@ -146,6 +149,8 @@ class Restrict(Harness):
                     t = types.get(k)
                     if t is None:
                         cl.append((f"item {i}: value of {k!r} stays under its own name", v_ident(p[k], exp[k]) if not isinstance(exp[k], str) else T(p[k] == exp[k])))
+                    elif t == "str":
+                        cl.append((f"item {i}: value of {k!r} is the unrestricted value cast with str", T(type(p[k]) is str and p[k] == str(inp["records"][i][k]))))
                     elif isinstance(exp[k], str):
                         if t == "float":
                             cl.append((f"item {i}: value of {k!r} is the unrestricted value cast with {t}", ident(FP(p[k]), symx.fpval(float(exp[k]))) if isinstance(p[k], (float, SymPyFloat)) else T(False)))
